@@ -11,13 +11,11 @@ theorem stepKid_inv (I : St → Prop) (rec : Rec) (ret : Nat)
     ∀ c i s i' s', I s → stepKid rec ret c i s = some (i', s') → I s' := by
   intro c i s i' s' hI h
   unfold stepKid at h
-  simp only at h
   split at h
   · exact absurd h (by simp)
   · rename_i item s2 hr
-    have hI1 : I (match (s.node ret).kw with
-        | .items l => s.setKw ret (.items (insertAt l i .none))
-        | _ => s) := by
+    have hI1 : I (addPlaceholder s ret i) := by
+      unfold addPlaceholder
       split
       · exact hkw _ _ _ hI
       · exact hI
